@@ -56,19 +56,39 @@ def layout(arr, how):
         return np.ascontiguousarray(arr)
     if how == 'f':
         return np.asfortranarray(arr)
-    if how == 'view':           # non-contiguous view into a larger buffer
+    if how == 'transposed':      # a transposed view of a C-contiguous buffer (reversed axis order in memory)
+        return np.ascontiguousarray(arr.transpose()).transpose()
+    if how == 'view':           # strided (non-contiguous) view into a larger buffer
         big = np.zeros(tuple(2 * s for s in arr.shape), dtype=arr.dtype)
         sl = tuple(slice(0, 2 * s, 2) for s in arr.shape)
         big[sl] = arr
         return big[sl]
+    if how == 'negstride':      # negative strides along every axis
+        rev = tuple(slice(None, None, -1) for _ in arr.shape)
+        return np.ascontiguousarray(arr[rev])[rev]
     if how == 'readonly':
         a = np.ascontiguousarray(arr).copy()
+        a.flags.writeable = False
+        return a
+    if how == 'readonly_view':  # read-only and non-contiguous
+        a = layout(arr, 'view')
         a.flags.writeable = False
         return a
     raise ValueError(how)
 
 
-LAYOUTS = ['c', 'c', 'f', 'view', 'readonly']
+LAYOUTS = ['c', 'c', 'f', 'transposed', 'view', 'negstride', 'readonly', 'readonly', 'readonly_view']
+
+
+def num(r, x):
+    """a number for a DS / FD / FL valued argument: as given, or perturbed so that its repr has 17-18 significant digits"""
+    k = r.random()
+    if k < 0.5:
+        return float(x)
+    if k < 0.75:
+        return float(x) + 1.0 / 3.0
+    return float(x) * (1.0 + 2.0 ** -30) + 1e-7
+
 
 
 # ------------------------------------------------------------------------------------------ segmentation
@@ -143,7 +163,8 @@ def subject_seg(r, nr):
         del src[0].SharedFunctionalGroupsSequence[0].PixelMeasuresSequence[0].SpacingBetweenSlices
     if kind in ('series', 'enhanced') and r.random() < 0.3:
         inputs_extra['pixel_measures'] = hd.PixelMeasuresSequence(
-            pixel_spacing=(1.0, 1.0), slice_thickness=1.0, spacing_between_slices=1.0 if r.random() < 0.4 else None)
+            pixel_spacing=(num(r, 1.0), num(r, 1.0)), slice_thickness=num(r, 1.0),
+            spacing_between_slices=1.0 if r.random() < 0.4 else None)
     if styp == ST.FRACTIONAL:
         kw['max_fractional_value'] = r.choice([255, 255, 1, 100])
     if kind == 'slide_tiled':
@@ -179,7 +200,7 @@ def subject_seg_volume(r, nr):
     styp = r.choice([ST.BINARY, ST.FRACTIONAL, ST.LABELMAP])
     dtype = r.choice(['uint8', 'bool', 'float32']) if styp == ST.FRACTIONAL else r.choice(['uint8', 'bool'])
     mask = (nr.random((n, rows, cols)) < 0.5).astype(dtype)
-    mvol = vol.with_array(layout(mask, r.choice(['c', 'f'])))
+    mvol = vol.with_array(layout(mask, r.choice(['c', 'f', 'transposed', 'readonly'])))
     kw = dict(_ids(r), **_equip())
     if styp == ST.FRACTIONAL:
         kw['max_fractional_value'] = r.choice([255, 1, 17])
@@ -221,17 +242,18 @@ def subject_pm(r, nr):
                                                     value_range=(-100.0, 100.0), intercept=0, slope=1))
         elif r.random() < 0.5:
             maps.append(hd.pm.RealWorldValueMapping(lut_label=f'm{k}', lut_explanation='feature', unit=codes.UCUM.NoUnits,
-                                                    value_range=(0, 255), intercept=r.choice([0, 1.5]), slope=r.choice([1, 2.0])))
+                                                    value_range=(0, 255), intercept=num(r, 1.5), slope=num(r, 2.0)))
         else:
             maps.append(hd.pm.RealWorldValueMapping(lut_label=f'm{k}', lut_explanation='feature', unit=codes.UCUM.NoUnits,
                                                     value_range=(0, 255), lut_data=[float(v) * 0.5 for v in range(256)]))
     # 2-D / 3-D arrays take a flat list (all mappings apply to the one channel), 4-D arrays one list per channel
     rwvm = [[m] for m in maps] if arr.ndim == 4 else maps
     kw = dict(_ids(r), **_equip())
+    wc, ww = num(r, 100), num(r, 200)
 
     def call(source_images, pixel_array, real_world_value_mappings):
         return hd.pm.ParametricMap(source_images, pixel_array, contains_recognizable_visual_features=False,
-                                   real_world_value_mappings=real_world_value_mappings, window_center=100, window_width=200,
+                                   real_world_value_mappings=real_world_value_mappings, window_center=wc, window_width=ww,
                                    **kw)
     return {'name': 'pm.ParametricMap', 'variant': (kind, dtype, arr.ndim, how, nmaps),
             'call': call, 'inputs': {'source_images': src, 'pixel_array': arr, 'real_world_value_mappings': rwvm}}
@@ -260,7 +282,7 @@ def subject_sc(r, nr):
         return {'name': 'sc.SCImage.from_ref_dataset', 'variant': (color, bits, how), 'call': call,
                 'inputs': {'pixel_array': arr, 'ref_dataset': ref}}
 
-    spacing = (0.5, 0.5) if r.random() < 0.5 else None
+    spacing = (num(r, 0.5), num(r, 0.5)) if r.random() < 0.5 else None
 
     def call(pixel_array):
         return hd.sc.SCImage(pixel_array=pixel_array, photometric_interpretation='RGB' if color else 'MONOCHROME2',
@@ -298,7 +320,7 @@ def _measurement_report(r, nr, src, use_3d, want_groups=False):
         else:
             region = sr.ImageRegion(graphic_type=sr.GraphicTypeValues.POLYLINE, graphic_data=pts,
                                     source_image=sr.SourceImageForRegion.from_source_image(img))
-        meas = [sr.Measurement(name=codes.SCT.AreaOfDefinedRegion, value=float(r.randint(1, 99)) / 4,
+        meas = [sr.Measurement(name=codes.SCT.AreaOfDefinedRegion, value=num(r, float(r.randint(1, 99)) / 4),
                                unit=codes.UCUM.SquareMillimeter,
                                tracking_identifier=sr.TrackingIdentifier(uid=new_uid()),
                                properties=sr.MeasurementProperties(
@@ -379,7 +401,7 @@ def subject_ann(r, nr):
     gtype = r.choice(['POINT', 'POLYGON', 'RECTANGLE', 'ELLIPSE', 'POLYLINE'])
     n = r.randint(1, 4)
     dim = 3 if coord3d else 2
-    how = r.choice(['c', 'f', 'readonly', 'view'])
+    how = r.choice(LAYOUTS)
     data = []
     for _ in range(n):
         npts = {'POINT': 1, 'RECTANGLE': 4, 'ELLIPSE': 4}.get(gtype, r.randint(3, 5))
@@ -391,7 +413,7 @@ def subject_ann(r, nr):
         if coord3d:
             pts = np.hstack([pts, np.zeros((pts.shape[0], 1))])
         data.append(layout(pts.astype(r.choice([np.float64, np.float32])), how))
-    values = layout(nr.integers(0, 50, size=(n, 1)).astype(np.float64) / 2, r.choice(['c', 'f', 'readonly']))
+    values = layout(nr.integers(0, 50, size=(n, 1)).astype(np.float64) / 2, r.choice(LAYOUTS))
     meas = [hd.ann.Measurements(name=codes.SCT.Area, unit=codes.UCUM.SquareMicrometer, values=values)] if r.random() < 0.6 else None
     ids = _ids(r)
     eq = _equip()
@@ -430,7 +452,7 @@ def subject_pr(r, nr):
             d.RescaleIntercept = 0
             d.RescaleSlope = 1
             d.RescaleType = 'HU'
-    how = r.choice(['c', 'f', 'readonly', 'view'])
+    how = r.choice(LAYOUTS)
     third = r.choice([1.0, 1.0 / 3.0])
     circle = layout(np.array([[2.0, 2.0], [3.0, 2.0]]) * third, how)
     layer = pr.GraphicLayer(layer_name='LAYER1', order=1, description='layer',
@@ -444,17 +466,24 @@ def subject_pr(r, nr):
     eq = _equip()
     inputs = {'referenced_images': src, 'graphic_layers': [layer], 'graphic_annotations': [ann]}
     extra = {}
-    lut_arr = layout(np.arange(10, 266, dtype=np.uint16), r.choice(['c', 'readonly', 'view']))
+    lut_arr = layout(np.arange(10, 266, dtype=np.uint16), r.choice(['c', 'readonly', 'view', 'negstride', 'readonly_view']))
     if which in ('gsps', 'pseudo'):
         if r.random() < 0.5:
             extra['modality_lut_transformation'] = hd.ModalityLUTTransformation(
                 modality_lut=hd.ModalityLUT(lut_type=hd.RescaleTypeValues.HU, first_mapped_value=0, lut_data=lut_arr))
         elif r.random() < 0.5:
             extra['modality_lut_transformation'] = hd.ModalityLUTTransformation(
-                rescale_intercept=-1024.0, rescale_slope=2.0, rescale_type='HU')
+                rescale_intercept=num(r, -1024.0), rescale_slope=num(r, 2.0), rescale_type='HU')
         if r.random() < 0.6:
             if r.random() < 0.5:
-                extra['voi_lut_transformations'] = [pr.SoftcopyVOILUTTransformation(window_center=40.0, window_width=400.0)]
+                if r.random() < 0.5:
+                    extra['voi_lut_transformations'] = [pr.SoftcopyVOILUTTransformation(
+                        window_center=num(r, 40.0), window_width=num(r, 400.0))]
+                else:       # several windows (lists / tuples of values)
+                    mk = r.choice([list, tuple])
+                    extra['voi_lut_transformations'] = [pr.SoftcopyVOILUTTransformation(
+                        window_center=mk([num(r, 40.0), num(r, 50.0)]), window_width=mk([num(r, 400.0), num(r, 300.0)]),
+                        window_explanation=mk(['soft', 'bone']))]
             else:
                 extra['voi_lut_transformations'] = [pr.SoftcopyVOILUTTransformation(
                     voi_luts=[hd.VOILUT(first_mapped_value=0, lut_data=lut_arr, lut_explanation='voi')])]
@@ -465,7 +494,7 @@ def subject_pr(r, nr):
     if which == 'pseudo':
         bits = 16                             # presentation states demand 16-bit palette LUTs
         dt = np.uint16
-        mk = lambda: layout(nr.integers(0, 2 ** bits - 1, size=256).astype(dt), r.choice(['c', 'readonly', 'view']))  # noqa: E731
+        mk = lambda: layout(nr.integers(0, 2 ** bits - 1, size=256).astype(dt), r.choice(['c', 'readonly', 'view', 'negstride', 'readonly_view']))  # noqa: E731
         extra['palette_color_lut_transformation'] = hd.PaletteColorLUTTransformation(
             red_lut=hd.PaletteColorLUT(0, mk(), color='red'), green_lut=hd.PaletteColorLUT(0, mk(), color='green'),
             blue_lut=hd.PaletteColorLUT(0, mk(), color='blue'), palette_color_lut_uid=new_uid())
@@ -478,6 +507,40 @@ def subject_pr(r, nr):
         return cls(content_label='LABEL', concept_name=codes.DCM.PresentationState,
                    content_creator_name='Doe^John' if creator else None, **kw, **ids, **eq)
     return {'name': 'pr.' + cls.__name__, 'variant': (which, tuple(sorted(extra)), how), 'call': call, 'inputs': inputs}
+
+
+def subject_pr_blending(r, nr):
+    import highdicom as hd
+    from highdicom import pr
+    a = sources.ct_series(r.randint(1, 2), 4, 4)
+    b = sources.ct_series(r.randint(1, 2), 4, 4, study=a[0].StudyInstanceUID, frame_of_reference=a[0].FrameOfReferenceUID)
+    for d in a + b:
+        d.RescaleIntercept = 0
+        d.RescaleSlope = 1
+        d.RescaleType = 'HU'
+    how = r.choice(['c', 'readonly', 'view', 'negstride', 'readonly_view'])
+
+    def lut():
+        mk = lambda: layout(nr.integers(0, 65535, size=256).astype(np.uint16), how)  # noqa: E731
+        return hd.PaletteColorLUTTransformation(red_lut=hd.PaletteColorLUT(0, mk(), color='red'),
+                                                green_lut=hd.PaletteColorLUT(0, mk(), color='green'),
+                                                blue_lut=hd.PaletteColorLUT(0, mk(), color='blue'))
+    voi = lambda: [pr.SoftcopyVOILUTTransformation(window_center=40.0, window_width=400.0)]  # noqa: E731
+    blend = [pr.AdvancedBlending(referenced_images=a, blending_input_number=1, voi_lut_transformations=voi(),
+                                 palette_color_lut_transformation=lut()),
+             pr.AdvancedBlending(referenced_images=b, blending_input_number=2, voi_lut_transformations=voi(),
+                                 palette_color_lut_transformation=lut())]
+    mode = r.choice(['FOREGROUND', 'EQUAL'])
+    disp = pr.BlendingDisplay(blending_mode=mode, blending_display_inputs=[pr.BlendingDisplayInput(1), pr.BlendingDisplayInput(2)],
+                              relative_opacity=r.choice([0.5, 1.0 / 3.0]) if mode == 'FOREGROUND' else None)
+    ids = _ids(r)
+    eq = _equip()
+
+    def call(referenced_images, blending, blending_display):
+        return pr.AdvancedBlendingPresentationState(referenced_images=referenced_images, blending=blending,
+                                                    blending_display=blending_display, content_label='BLEND', **ids, **eq)
+    return {'name': 'pr.AdvancedBlendingPresentationState', 'variant': (mode, how, len(a), len(b)), 'call': call,
+            'inputs': {'referenced_images': a + b, 'blending': blend, 'blending_display': [disp]}}
 
 
 # ------------------------------------------------------------------------------------------ legacy conversion
@@ -521,14 +584,15 @@ def subject_content(r, nr):
     mask[1, 1, 1] = 1
     seg = hd.seg.Segmentation(seg_src, mask, 'BINARY', [sources.seg_description(1, tracking=True)], new_uid(), 1, new_uid(), 1,
                               'm', 'mm', '1', '1')
-    how = r.choice(['c', 'f', 'readonly', 'view'])
+    how = r.choice(LAYOUTS)
     p2 = layout(nr.integers(1, 5, size=(1, 2)).astype(np.float64), how)
     p3 = layout(nr.integers(1, 5, size=(1, 3)).astype(np.float64), how)
     ell = layout(np.array([[1.0, 2.0, 2.0], [3.0, 2.0, 2.0], [2.0, 1.0, 2.0], [2.0, 3.0, 2.0], [2.0, 2.0, 1.0], [2.0, 2.0, 3.0]]), how)
-    lut = layout(np.arange(256, dtype=np.uint16), r.choice(['c', 'readonly', 'view']))
+    lut = layout(np.arange(256, dtype=np.uint16), r.choice(['c', 'readonly', 'view', 'negstride', 'readonly_view']))
     name = codes.DCM.LevelOfSignificance
     rel = sr.RelationshipTypeValues.CONTAINS
     uids = [new_uid() for _ in range(12)]
+    seq_kind = r.choice([list, tuple])
 
     extra = [sr.TextContentItem(name=codes.DCM.AcquisitionProtocol, value='protocol',
                                 relationship_type=r.choice([sr.RelationshipTypeValues.CONTAINS,
@@ -583,6 +647,18 @@ def subject_content(r, nr):
             *_measurement_report(r, nr, images, use_3d=False, want_groups=True),
             *_measurement_report(r, nr, images, use_3d=True, want_groups=True),
             sr.ImageLibraryEntryDescriptors(i0, additional_descriptors=extra_items),
+            hd.VOILUTTransformation(window_center=seq_kind([num(r, 40.0), num(r, 50.0), num(r, 60.0)]),
+                                    window_width=seq_kind([num(r, 400.0), num(r, 300.0), num(r, 200.0)]),
+                                    window_explanation=seq_kind(['a', 'b', 'c'])),
+            hd.VOILUTTransformation(window_center=num(r, 40.0), window_width=num(r, 400.0)),
+            hd.ModalityLUTTransformation(rescale_intercept=num(r, -3.0), rescale_slope=num(r, 0.5), rescale_type='US'),
+            hd.PixelMeasuresSequence(pixel_spacing=(num(r, 0.5), num(r, 0.25)), slice_thickness=num(r, 1.0),
+                                     spacing_between_slices=num(r, 1.5)),
+            hd.PlanePositionSequence(hd.CoordinateSystemNames.PATIENT, image_position=(num(r, 1.0), num(r, -2.0), num(r, 3.0))),
+            hd.PlaneOrientationSequence(hd.CoordinateSystemNames.PATIENT,
+                                        image_orientation=(0.7071067811865476, 0.7071067811865475, 0.0, 0.0, 0.0, -1.0)),
+            sr.TcoordContentItem(name=name, temporal_range_type=sr.TemporalRangeTypeValues.MULTIPOINT,
+                                 referenced_time_offsets=[num(r, 1.0), num(r, 2.0)], relationship_type=rel),
             hd.seg.SegmentDescription(
                 segment_number=1, segment_label='full', segmented_property_category=codes.SCT.Tissue,
                 segmented_property_type=codes.SCT.Tissue, algorithm_type='AUTOMATIC',
@@ -597,4 +673,4 @@ def subject_content(r, nr):
 
 
 SUBJECTS = [subject_content, subject_seg, subject_seg, subject_seg, subject_seg_volume, subject_pm, subject_pm, subject_sc, subject_sr,
-            subject_sr, subject_ko, subject_ann, subject_pr, subject_pr, subject_legacy]
+            subject_sr, subject_ko, subject_ann, subject_pr, subject_pr, subject_pr_blending, subject_legacy]
